@@ -7,6 +7,17 @@ import traceback
 from . import pool
 
 
+def _journaled_case():
+    import json
+
+    path = os.environ.get("VERIF_JOURNAL")
+    try:
+        with open(path, "rb") as f:
+            return json.loads(f.read().decode("utf8", "replace").strip())
+    except Exception:
+        return None
+
+
 def main():
     prop = sys.argv[1]
     out = os.fdopen(os.dup(1), "wb")
@@ -23,8 +34,18 @@ def main():
             return
         try:
             res = mod.run_shard(spec)
-        except Exception:
-            res = {"harness_error": traceback.format_exc()[-4000:], "spec": repr(spec)[:500]}
+        except Exception as e:
+            # The modules run clean on the tree they were written against, so an exception that escapes a
+            # shard means the implementation raised where a value was expected: report it as a failure of
+            # the journaled case (confirmed by replay like any other), not as a harness error.
+            case = _journaled_case()
+            tb = traceback.format_exc()[-4000:]
+            if case is None:
+                res = {"harness_error": tb, "spec": repr(spec)[:500]}
+            else:
+                res = {"evals": 1, "nontrivial": 1, "samples": [], "counters": {"shards_cut_short_by_exception": 1},
+                       "suppressed": 0,
+                       "failures": [{"key": f"exception:{type(e).__name__}", "what": tb[-1500:], "case": case}]}
         pool._send(out, res)
 
 
